@@ -31,6 +31,9 @@
 (*     permutation, not only full reversal); for det = 0 only "no crash,    *)
 (*     vertices moved" is demanded.  The signed-volume clause is evaluated  *)
 (*     only for closed, consistently oriented meshes with non-zero volume.  *)
+(*     "mirrors space" = negative determinant of the linear part, whatever  *)
+(*     its magnitude: a uniform positive unit change does not alter it      *)
+(*     (ScaledWindingClause).                                               *)
 (*  I3 a zero coordinate may carry either sign bit.                         *)
 (*  I4 stored files may be gzip-compressed under "<name>.gz" (the package's *)
 (*     documented on-disk layout, served transparently); the oracle sees    *)
@@ -184,6 +187,19 @@ WindingClause(v, t, M, tr, v2, t2) ==
           /\ Sign(CentredVolume6(v2, t2)) # Sign(CentredVolume6(v, t))
        THEN "oracle:OrientationKept"
   ELSE "ok"
+
+\* The same for the map p |-> sc.(M.p + tr) with a rational unit change
+\* sc = <<num, den>> (10^-3, 10^-6, 10^3, 10^6 ...): v2 is given in the result
+\* unit, so the vertex rule is unchanged, and det(sc.M) = sc^3.det(M): for
+\* sc > 0 the transform mirrors space exactly when det(M) < 0, HOWEVER SMALL
+\* |sc^3.det(M)| is (a mirror combined with a micrometre -> millimetre change
+\* has determinant -10^-9 and is as invertible as the mirror itself).  The sign
+\* is decided on the integer matrix; the scale never enters a product, so
+\* nothing leaves TLC's 32-bit integers.
+ScaleSign(sc) == Sign(sc[1]) * Sign(sc[2])
+ScaledWindingClause(v, t, M, sc, tr, v2, t2) ==
+  IF ScaleSign(sc) <= 0 THEN "machinery:BadScale"
+  ELSE WindingClause(v, t, M, tr, v2, t2)
 
 (***************************************************************************)
 (* 4. Mesh conversion: mm -> nm                                            *)
